@@ -147,6 +147,9 @@ func GenCmdCase(r *Rand, doc *GDoc, kinds []string) CmdCase {
 			y, m, d := genDate(r)
 			a = ymd{y, m, d}
 		}
+		if r.P(1, 12) { // the ends of the calendar (the former D20: `stop --date 0000-01-01`)
+			a = Pick(r, []ymd{{0, 1, 1}, {9999, 12, 31}, {0, 1, 2}, {9999, 12, 30}})
+		}
 		sep := "-"
 		if r.P(1, 3) {
 			sep = "/"
